@@ -496,6 +496,55 @@ pub fn check_c11(ctx: &mut Ctx, d: &RunData, con: &Consist, final_state: &TrainS
     pos && neg
 }
 
+/// Trip-level outputs of a vector of finished runs (`SpeedLimitTrainSimVec`): each getter must be the sum of the
+/// members' totals, every member scaled by its own documented factor (365.25 / its simulated days). The vector
+/// holds the finished run and copies of it that belong to campaigns of other lengths, in both orders.
+fn check_c11_trip_vector(ctx: &mut Ctx, what: &str, sim: &SpeedLimitTrainSim, sim_days: Option<i32>, b: &Built) {
+    let with_days = |days: Option<i32>| -> Option<SpeedLimitTrainSim> {
+        // through YAML: a finished path holds infinite sentinel offsets, which JSON cannot carry
+        let mut v = serde_yaml::to_value(sim).ok()?;
+        let dv = match days {
+            Some(x) => serde_yaml::Value::Number((x as i64).into()),
+            None => serde_yaml::Value::Null,
+        };
+        v.as_mapping_mut()?.insert(serde_yaml::Value::String("simulation_days".into()), dv);
+        serde_yaml::from_value(v).ok()
+    };
+    let others: Vec<Option<i32>> = [None, Some(1), Some(7), Some(30), Some(365)].into_iter().filter(|x| *x != sim_days).collect();
+    let pick = (ctx.case as usize) % others.len();
+    let (o1, o2) = (others[pick], others[(pick + 1) % others.len()]);
+    let (s1, s2) = match (with_days(o1), with_days(o2)) {
+        (Some(a), Some(c)) => (a, c),
+        _ => {
+            ctx.count("obs.trip_vector_copy_not_loadable");
+            return;
+        }
+    };
+    let factor = |d: Option<i32>| d.map(|x| 365.25 / x as f64).unwrap_or(365.25);
+    let fuel: f64 = sim.loco_con.loco_vec.iter().map(|l| l.fuel_converter().map(|f| f.state.energy_fuel.value).unwrap_or(0.0)).sum();
+    let res: f64 = sim.loco_con.loco_vec.iter().map(|l| l.reversible_energy_storage().map(|r| r.state.energy_out_chemical.value).unwrap_or(0.0)).sum();
+    let res_abs: f64 = sim.loco_con.loco_vec.iter().map(|l| l.reversible_energy_storage().map(|r| r.state.energy_out_chemical.value.abs() + r.state.energy_loss.value).unwrap_or(0.0)).sum();
+    let km = sim.state.total_dist.value / 1000.0;
+    let mgkm = sim.state.mass_freight.value / 1000.0 * km;
+    for (order, members, days) in [("run_first", vec![sim.clone(), s1.clone(), s2.clone()], [sim_days, o1, o2]), ("run_last", vec![s2, s1, sim.clone()], [o2, o1, sim_days])] {
+        let v = SpeedLimitTrainSimVec(members);
+        for annualize in [false, true] {
+            let fsum: f64 = days.iter().map(|d| if annualize { factor(*d) } else { 1.0 }).sum();
+            ctx.count("obs.trip_vector_getters");
+            for (name, got, want, abs) in [
+                ("fuel", v.get_energy_fuel(annualize).value, fuel * fsum, 0.0),
+                ("net_battery_energy", v.get_net_energy_res(annualize).value, res * fsum, res_abs * fsum),
+                ("kilometers", v.get_kilometers(annualize), km * fsum, 0.0),
+                ("megagram_kilometers", v.get_megagram_kilometers(annualize), mgkm * fsum, 0.0),
+            ] {
+                if !close(got, want, 1e-11, abs) {
+                    ctx.violate("trip_vector_totals", &format!("C11:trip_vector_{name}"), format!("[{what}] SpeedLimitTrainSimVec of three campaigns (simulated days {days:?}, {order}), annualize={annualize}: {name} {got} != sum of the members' totals each scaled by its own factor {want}"), json!({"case": case_json(b)}));
+                }
+            }
+        }
+    }
+}
+
 // ------------------------------------------------------------------ C14
 
 pub fn check_c14(ctx: &mut Ctx, d: &RunData, con: &Consist, time: &[f64], speed: &[f64]) -> (bool, bool) {
@@ -1203,6 +1252,9 @@ pub fn speed_limit_run(ctx: &mut Ctx, rng: &mut Rng, interval: Option<usize>, ex
         let multi = check_c12(ctx, &d);
         let getters = Some((sim.get_kilometers(true), sim.get_megagram_kilometers(true), sim.get_energy_fuel(true).value, sim.get_net_energy_res(true).value, 0.0));
         let both = if interval == Some(1) { check_c11(ctx, &d, &sim.loco_con, &sim.state, getters, sim_days, ok) } else { false };
+        if ctx.prop == "C11" && ok {
+            check_c11_trip_vector(ctx, what, &sim, sim_days, &b);
+        }
         let mixed = b.spec.kinds.iter().any(|k| *k == crate::gen::powertrain::Kind::Bel) && b.spec.kinds.iter().any(|k| *k == crate::gen::powertrain::Kind::Conv);
         let nt = match ctx.prop {
             "C07" => straddle,
